@@ -144,6 +144,16 @@ def run(ctx, model_available=True):
                                      "desc": f"step {i} {what!r}: protocol {old} gives {str(ox)[:160]}, protocol {new} gives {str(oy)[:160]}",
                                      "case": {"ops": ops, "old": old, "new": new, "step": i}})
                     break
+    # every version on its own, nothing excluded (heartbeat responses of registered nodes under 2.2,
+    # gateway-ready under 2.x included): no cross-version claim is made about these steps, they are
+    # compared with the model only, so that the code behind the documented exception is tied too
+    for v in VERSIONS:
+        for _ in range(ctx.budget(12, 120)):
+            ops = gen(rng, v)
+            if v[0] == "2":
+                ops += [("recv", f"{rng.choice([1, 2, 3])};255;3;0;22;{rng.choice(['5', 'abc', ''])}"),
+                        ("recv", f"{rng.choice([1, 2, 3])};255;3;0;{32 if v == '2.2' else 22};500")]
+            impls.append(run_one(ops, v))
     if model_available:
         outs = run_sharded([im.ops for im in impls], jobs=12)
         for im, o in zip(impls, outs):
